@@ -281,6 +281,7 @@ def run(tier, replay=None):
                  sign_vars={'col1IsNeg': (1, '-'), 'col2IsNeg': (2, '-')}, pairing_only=True)
     check_paired_direction(chk, F)
     check_dictionary_cover(chk, F)
+    check_reduction_order(chk, F)
     chk.assumptions += ['clang 14 parser; template patterns (all if-constexpr arms, contradictory arms pruned)',
                         'the *_transpose functions are the only code exchanging bars (checked by name)']
     return chk
@@ -423,3 +424,59 @@ def check_dictionary_cover(chk, F):
            '' if ok else 'the size given to pivotToColumnIndex_.resize() does not depend on `%s`: the vector only '
            'covers the pivots seen so far while %s subscripts it at the positions of the swapped cells' %
            (idx, u[0]['name']), key='E5b|RU_matrix::_insert_boundary|dictionary-cover')
+
+
+def check_reduction_order(chk, F):
+    """E11-order: "later insertions behave as on the fresh matrix". The chain reduction of a new boundary repeatedly
+    takes the *latest* cell of the working column and reduces by the chain with that pivot. A transposition exchanges
+    filtration positions, not identifiers: in a matrix with vine updates the latest cell is the one of highest
+    *position*, which the class tracks in pivotToPosition_. A working column that is an ordered container keyed by
+    ID_index with the default order, whose extremum (rbegin / begin / max) selects the reducing chain, picks the cell
+    of highest identifier instead."""
+    import re
+    cs = [c for c in F.classes if c['name'] == 'Chain_matrix' and c.get('inst') == 0]
+    if len(cs) != 1:
+        raise AnalysisBroken('C06: class Chain_matrix not found')
+    aliases = {a['n']: a['t'] for a in cs[0].get('aliases', [])}
+    fns = [f for f in F.functions if f.get('clsname') == 'Chain_matrix' and f.get('inst') in (0, 2) and
+           f.get('body') is not None]
+    n = 0
+    for f in fns:
+        # variables of an alias type that is an ordered container keyed by ID_index without comparator
+        cand = {}
+        decls = list(f.get('params', [])) + [x for x in ir.walk(f['body']) if x.get('k') == 'VarDecl']
+        for d in decls:
+            t = (d.get('t') or '').replace('const ', '').replace('&', '').strip().split('::')[-1]
+            under = aliases.get(t)
+            if under and re.search(r'std::(set|map)<ID_index(,[^,<>]*)?>', under.replace(' ', '')):
+                # std::set<ID_index> or std::map<ID_index, V>: a third/second template argument would be a comparator
+                if not re.search(r'std::set<ID_index,[^>]+>|std::map<ID_index,[^,>]+,[^>]+>', under.replace(' ', '')):
+                    cand[d['n']] = t
+        if not cand:
+            continue
+        picks = [x for x in ir.walk(f['body']) if ir.is_call(x) and ir.call_name(x) in ('rbegin', 'begin', 'crbegin')
+                 and ir.call_receiver(x) is not None and ir.show(ir.call_receiver(x)) in cand]
+        selects = ir.contains(f['body'], lambda y: ir.is_call(y) and ir.call_name(y) == 'get_column_with_pivot')
+        if not picks or not selects:
+            continue
+        n += 1
+        # accepted: the extremum is only taken where vine updates are statically off
+        par = ir.parents(f['body'])
+        guarded = True
+        for x in picks:
+            cur, g = x, False
+            while id(cur) in par:
+                up = par[id(cur)]
+                if up.get('k') == 'IfStmt' and up.get('constexpr') and 'has_vine_update' in ir.show(up.get('cond')):
+                    g = True
+                cur = up
+            guarded = guarded and g
+        chk.ob('E11-reduction-order', 'Chain_matrix::%s selects the reducing chain by filtration position'
+               % f['name'], '%s:%s' % (rel(f['file']), picks[0].get('l')), guarded,
+               '' if guarded else '`%s` takes the extremum of `%s`, a %s ordered by identifier (%s): after a '
+               'transposition the cell of highest identifier is not the latest cell of the filtration, the new '
+               'boundary is reduced in the wrong order' % (ir.show(picks[0]), ir.show(ir.call_receiver(picks[0])),
+                                                           cand[ir.show(ir.call_receiver(picks[0]))],
+                                                           aliases[cand[ir.show(ir.call_receiver(picks[0]))]][:90]),
+               key='E11|Chain_matrix::%s|reduction-order' % f['name'])
+    chk.expect_count('E11-reduction-order', 'reductions driven by the extremum of an identifier-ordered column', n, 1)
